@@ -37,6 +37,7 @@ def scenarios(seed, tier):
     n = 600 if tier == 'quick' else 3600
     rnd = random.Random(seed * 7919 + 4)
     rnd2 = random.Random(seed * 7919 + 4 + 500009)      # own stream for the additions (the portfolios drawn from rnd stay what they were)
+    rnd4 = random.Random(seed * 7919 + 4 + 1300021)     # read-out sequences, relaxed problems
     for i in range(n):
         s = gen.gen_portfolio(random.Random(rnd.getrandbits(48)), tmax=12 if tier == 'quick' else 20,
                               kinds=['simple', 'contract', 'transport', 'storage', 'storage2', 'multi', 'orderbook', 'orderbook',
@@ -46,12 +47,14 @@ def scenarios(seed, tier):
             s['refix_seed'] = rnd2.getrandbits(30)      # rolling re-optimisation of the split solution with whole intervals pinned
         if i % 5 == 1:
             s['robust_seed'] = rnd.getrandbits(30)      # additionally optimised with the robust target over perturbed price samples
+        if i % 3 == 1:
+            s['reads_seed'] = rnd4.getrandbits(30)      # every result of the case is read out several times (comp/c04read.py)
         yield 'gen%d' % i, s
     # results of two-stage stochastic programmes are optimised portfolios too: the accounting identity on the SLP read-out
     from ..comp import slp as S
     for i in range(n // 10):
         r1 = random.Random(rnd.getrandbits(48))
-        yield 'slp%d' % i, {'_stream': 'slp', 'case': S.gen_straddle_case(r1) if i % 2 else S.gen_case(r1)}
+        yield 'slp%d' % i, {'_stream': 'slp', 'case': S.gen_straddle_case(r1) if i % 2 else S.gen_case(r1), 'reads_seed': rnd4.getrandbits(30)}
     # problems (and single intervals of split problems) in which every variable is pinned by its bounds and carries cash flows
     from ..comp import fixedpf as F
     for i in range(n // 8):
@@ -77,6 +80,15 @@ def scenarios(seed, tier):
         if i % 5 == 2:
             s['robust_seed'] = rnd3.getrandbits(30)
         yield 'scawin%d' % i, s
+    # yes/no decisions that cost money (start / running / minimum-load costs behind a minimum load, fully executed orders):
+    # solved as MIP and as relaxed problem (make_soft_problem), in one go and split; results read out several times
+    from ..comp import c04read as R
+    for i in range(n // 6):
+        s = R.gen_costly_bools(random.Random(rnd4.getrandbits(48)), tmax=10 if tier == 'quick' else 16)
+        s['mode'] = 'split' if i % 3 == 1 else 'mono'
+        if i % 2 == 0:
+            s['reads_seed'] = rnd4.getrandbits(30)
+        yield 'cbool%d' % i, s
     # the same kind of portfolio through the other doors of the package (io.optimize with the data in several containers,
     # run_from_json, set_param): comp/entry.py
     from ..comp import entry as EN
@@ -88,12 +100,11 @@ def run_case(scn, drv):
         from ..comp import entry as EN
         return EN.run_stream_case(scn, ('value_accounting',))
     from ..comp import c04gen as G
+    from ..comp import c04read as R
     if scn.get('_stream') == 'slp':
-        from ..comp import slp as S
-        r0 = S.run_case(scn['case'], drv)
-        # of the oracles of C17 only the one that is C04's statement; the tie of makeSlp belongs to C17
-        return {'evaluated': 1, 'nontrivial': bool(r0.get('nontrivial')), 'features': ['stream:slp'] + [f for f in r0['features'] if f.startswith(('family', 'impl', 'multi'))],
-                'disagreements': [], 'violations': [v for v in r0['violations'] if v['oracle'] == 'slp_dcf_total']}
+        # the result of the two-stage programme read out several times, C04's statement on every table (per asset: own variables
+        # plus the copies of its future ones); the tie of makeSlp and the other SLP oracles belong to C17
+        return R.run_slp_case(scn, drv)
     r = {'evaluated': 1, 'nontrivial': False, 'features': [], 'disagreements': [], 'violations': []}
     feats = r['features']
     if scn.get('stream'):
@@ -113,13 +124,28 @@ def run_case(scn, drv):
     r['disagreements'] += pf.hyp_wf(rec)
     feats.append('hypotheses-evaluated')
     r['disagreements'] += pf.corr_assemble(rec, drv, aspects=('c', 'mapping'))
-    pf.solve_rec(rec)
+    reads = scn.get('reads_seed')
+    R.solve_snap(rec)
     if isinstance(rec['res'], str):
         feats.append('unsolved:' + rec['res'])
     else:
         feats.append('solved')
         r['disagreements'] += pf.corr_readout(rec, drv, what=('dcf',))
         r['violations'] += G.orc_value_accounting(rec, 'mono', pf.asset_blocks(rec))
+        if reads is not None and not r['violations']:
+            v, f = R.read_sequence(rec, 'mono', pf.asset_blocks(rec), reads)
+            r['violations'] += v
+            feats.extend(f)
+            r['evaluated'] += 1
+        if pf.is_mip(rec['op']):
+            # the same problem, booleans relaxed
+            try:
+                v, f, k = R.relaxed(rec, 'relaxed', pf.asset_blocks(rec), None if reads is None else reads + 1)
+                r['violations'] += v
+                feats.extend(f)
+                r['evaluated'] += k
+            except Exception as e:
+                feats.append('relaxed-error:' + impl.err_class(e))
         nz = int((np.abs(rec['out']['DCF'].values).sum(axis=0) > 1e-9).sum())
         r['nontrivial'] = nz >= 2
         r['observed'] = {'value': float(rec['res'].value), 'assets_with_cash_flow': nz}
@@ -142,21 +168,36 @@ def run_case(scn, drv):
             r['evaluated'] += 1
             if not isinstance(res_r, str):
                 import eaopack as eao
+                snap_r = R.Snap(op_r, res_r)
                 with impl.Quiet():
                     out_r = eao.io.extract_output(rec['portf'], op_r, res_r, rec['prices'])
                 feats.append('robust-mip' if pf.is_mip(op_r) else 'robust-lp')
-                r['violations'] += G.orc_value_accounting({'out': out_r, 'res': res_r, 'op': op_r, 'portf': rec['portf'], 'tg': rec['tg']}, 'robust', pf.asset_blocks(rec))
+                rec_r = {'out': out_r, 'res': res_r, 'snap': snap_r, 'op': op_r, 'portf': rec['portf'], 'tg': rec['tg'], 'prices': rec['prices']}
+                r['violations'] += G.orc_value_accounting(rec_r, 'robust', pf.asset_blocks(rec))
+                if reads is not None and not r['violations']:
+                    v, f = R.read_sequence(rec_r, 'robust', pf.asset_blocks(rec), reads + 2)
+                    r['violations'] += v
+                    feats.extend('robust:' + q for q in f)
         except Exception as e:
             feats.append('robust-error:' + impl.err_class(e))
     if scn.get('mode') == 'split':
         try:
             # on the SAME portfolio / asset / grid objects that were just optimised monolithically
             rs = pf.setup_split(scn, scn.get('split_interval') or pf.split_interval(scn, rec['tg']), objects=(rec['portf'], rec['tg'], rec['prices']))
-            pf.solve_rec(rs)
+            R.solve_snap(rs)
             feats.append('split')
             r['evaluated'] += 1
             if not isinstance(rs['res'], str):
                 r['violations'] += G.orc_value_accounting(rs, 'split', pf.asset_blocks(rs))
+                if reads is not None and not r['violations']:
+                    v, f = R.read_sequence(rs, 'split', pf.asset_blocks(rs), reads + 3)
+                    r['violations'] += v
+                    feats.extend('split:' + q for q in f)
+                if pf.is_mip(rs['op']):
+                    v, f, k = R.relaxed(rs, 'split-relaxed', pf.asset_blocks(rs), None if reads is None else reads + 4)
+                    r['violations'] += v
+                    feats.extend(f)
+                    r['evaluated'] += k
                 feats.extend('split:' + f for f in G.features(rs, pf.asset_blocks(rs)))
                 if any(len(o.l) and bool(np.all(o.l == o.u)) for o in rs['op'].ops):
                     feats.append('split-with-interval-without-free-variable')
@@ -187,7 +228,7 @@ def run_case(scn, drv):
             with impl.Quiet(), impl.Capture(rec3['portf']) as cap:
                 rec3['op'] = rec3['portf'].setup_optim_problem(rec['prices'], rec['tg'])
             rec3['captured'] = {k: v[-1] for k, v in cap.caught.items()}
-            pf.solve_rec(rec3)
+            R.solve_snap(rec3)
             r['evaluated'] += 1
             feats.append('same-objects-reordered')
             if not isinstance(rec3['res'], str):
